@@ -57,7 +57,10 @@ class Module:
 
     @property
     def rel(self) -> str:
-        return os.path.relpath(self.path, REPO)
+        r = self.__dict__.get("_rel")
+        if r is None:
+            r = self.__dict__["_rel"] = os.path.relpath(self.path, REPO)
+        return r
 
     def loc(self, node: ast.AST) -> str:
         return f"{self.rel}:{getattr(node, 'lineno', 0)}"
